@@ -25,7 +25,7 @@ for n in names:
             res[pr] = {'exit': q.returncode, 'violations': v[:3]}
     finally:
         subprocess.run('git -C /repo checkout -q -- . ; git -C /repo reset -q', shell=True)
-    meta['detected_by'] = {pr: ('caught' if r['exit'] == 1 else 'MISSED') + (' (no-failing-input-found)' if any('no-failing' in x for x in r['violations']) else '')
+    meta['detected_by'] = {pr: ('caught' if r['exit'] == 1 and r['violations'] else ('NO-CHECK' if r['exit'] not in (0, 1) or (r['exit'] == 1 and not r['violations']) else 'MISSED')) + (' (no-failing-input-found)' if any('no-failing' in x for x in r['violations']) else '')
                            for pr, r in res.items()}
     json.dump(meta, open(f'seeded/{n}/meta.json', 'w'), indent=1)
     rows.append((n, prop, '; '.join(f'{k}: {v}' for k, v in meta['detected_by'].items()), ''))
